@@ -107,6 +107,8 @@ pub struct Scenario {
     pub ignore_abort_permille: u64,
     pub pool: u8,
     pub max_rounds: usize,
+    /// failures are scripted only once the termination request has been sent
+    pub fail_after_term_only: bool,
 }
 
 const SPECS: &[(&str, &[&str])] = &[
@@ -127,7 +129,7 @@ pub fn gen_scenario(rng: &mut Rng, thorough: bool) -> Scenario {
             target: None, sample_size: 1 + rng.below(3) as usize, spec_yaml: spec.to_string(), guess: None,
             script_seed: rng.next(), term_round: None, fail_permille: 0, rej_permille: *rng.pick(&[0, 50, 200]),
             nonfinite_permille: 0, burst_permille: *rng.pick(&[0, 300]), ignore_abort_permille: *rng.pick(&[0, 1000]),
-            pool: rng.below(7) as u8, max_rounds: rounds,
+            pool: rng.below(7) as u8, max_rounds: rounds, fail_after_term_only: false,
         };
     }
     if rng.chance(1, 14) {
@@ -139,7 +141,18 @@ pub fn gen_scenario(rng: &mut Rng, thorough: bool) -> Scenario {
             nc: 1 + rng.below(3) as usize, max_eval: None, target: Some(*rng.pick(&[-3.0, -2.0, -4.5])), sample_size: ss,
             spec_yaml: spec.to_string(), guess: None, script_seed: rng.next(), term_round: None, fail_permille: 0,
             rej_permille: *rng.pick(&[0, 50]), nonfinite_permille: 0, burst_permille: *rng.pick(&[0, 300]),
-            ignore_abort_permille: 0, pool: 4, max_rounds: if thorough { 1500 } else { 500 },
+            ignore_abort_permille: 0, pool: 4, max_rounds: if thorough { 1500 } else { 500 }, fail_after_term_only: false,
+        };
+    }
+    if rng.chance(1, 16) {
+        // a termination request after some accepted results, then evaluations that ignore the abort and FAIL while
+        // the run drains: the best result so far must still be what is returned
+        let (spec, _) = SPECS[rng.below(SPECS.len() as u64) as usize];
+        return Scenario {
+            nc: 2 + rng.below(5) as usize, max_eval: None, target: None, sample_size: 1, spec_yaml: spec.to_string(), guess: None,
+            script_seed: rng.next(), term_round: Some(3 + rng.below(12) as usize), fail_permille: *rng.pick(&[300, 700]), rej_permille: 100,
+            nonfinite_permille: *rng.pick(&[0, 200]), burst_permille: *rng.pick(&[0, 300]), ignore_abort_permille: 1000, pool: rng.below(7) as u8,
+            max_rounds: 80, fail_after_term_only: true,
         };
     }
     let nc = 1 + rng.below(8) as usize;
@@ -170,7 +183,7 @@ pub fn gen_scenario(rng: &mut Rng, thorough: bool) -> Scenario {
         nonfinite_permille: *rng.pick(&[0, 0, 0, 10, 50]),
         burst_permille: *rng.pick(&[0, 200, 600]),
         ignore_abort_permille: *rng.pick(&[0, 0, 500, 1000]),
-        pool, max_rounds,
+        pool, max_rounds, fail_after_term_only: false,
     }
 }
 
@@ -181,7 +194,7 @@ pub fn scenario_json(sc: &Scenario) -> J {
         "guess": sc.guess, "hasGuess": sc.guess.is_some(), "scriptSeed": sc.script_seed, "termRound": sc.term_round,
         "failPermille": sc.fail_permille, "rejPermille": sc.rej_permille, "nonfinitePermille": sc.nonfinite_permille,
         "burstPermille": sc.burst_permille, "ignoreAbortPermille": sc.ignore_abort_permille, "pool": sc.pool,
-        "maxRounds": sc.max_rounds,
+        "maxRounds": sc.max_rounds, "failAfterTermOnly": sc.fail_after_term_only,
     })
 }
 
@@ -199,6 +212,7 @@ pub fn scenario_from_json(j: &J) -> Scenario {
         fail_permille: u("failPermille"), rej_permille: u("rejPermille"), nonfinite_permille: u("nonfinitePermille"),
         burst_permille: u("burstPermille"), ignore_abort_permille: u("ignoreAbortPermille"), pool: u("pool") as u8,
         max_rounds: u("maxRounds") as usize,
+        fail_after_term_only: j["failAfterTermOnly"].as_bool().unwrap_or(false),
     }
 }
 
@@ -334,7 +348,8 @@ pub fn run_scenario(sc: &Scenario, sh: Arc<Mutex<Shared>>) -> J {
             }
             let width = if rng.below(1000) < sc.burst_permille { 1 + rng.below(n as u64) as usize } else { 1 };
             let mut fail_round = rng.below(1000) < sc.fail_permille + sc.nonfinite_permille;
-            if terminated > 0 && fail_round && rng.chance(1, 2) { fail_round = false; }
+            if terminated > 0 && fail_round && !sc.fail_after_term_only && rng.chance(1, 2) { fail_round = false; }
+            if terminated == 0 && sc.fail_after_term_only { fail_round = false; }
             let take = if fail_round { 1 } else { width };
             for _ in 0..take {
                 let mut g = sh2.lock().unwrap();
